@@ -7,8 +7,9 @@ import CifModel.Lemmas.StoreRefineS
 import CifModel.Lemmas.StoreRefineR
 import CifModel.Lemmas.StoreRefineC
 import CifModel.Lemmas.StoreTotalS
-import CifModel.Lemmas.StoreWOk
+import CifModel.Lemmas.StoreWOkQ
 import CifModel.Lemmas.StoreRefineW
+import CifModel.Lemmas.StoreSpecRefine
 import CifModel.Lemmas.StoreCodes
 import CifModel.Lemmas.StoreTree
 /-
@@ -929,7 +930,8 @@ theorem okL_busy {w : World} {l : Nat} {e : LHE} {s : Store} (hin : okL w l = tr
     CIF only that iterator's calls work on it) keeps `WOk`: every managed CIF — content and every snapshot a rollback could restore —
     satisfies `Inv`, PacketsTotal (every packet has a stored value for every item of its loop: what fix e266ec6 of F30 established),
     RowsBelowAll (no stored row number above last_row_num) and ScalarCount (a scalar loop with last_row_num 1 has its packet); every
-    open iterator is tied to its store (`IterOk`: names, scalar flag, current row, rows to come); a CIF has at most one open iterator. -/
+    open iterator is tied to its store (`IterOk`: names, scalar flag, current row, rows to come); a CIF has at most one open iterator;
+    a CIF without open iterator is in autocommit mode (`Quiet`). -/
 theorem C04_wok_step (w : World) (op : Op) (h : WOk w) (hin : inContract w op = true) : WOk (step w op).1 := by
   cases op with
   | cifNew => exact h.cifNew rfl rfl
@@ -940,81 +942,83 @@ theorem C04_wok_step (w : World) (op : Op) (h : WOk w) (hin : inContract w op = 
   | mkBlock c n =>
     simp only [step]; split
     · exact h.same rfl rfl
-    · rename_i s hl; exact h.setFree c _ (createBlock_goodS (h.good.live hl) n false) (okC_busy hin hl) rfl rfl
+    · rename_i s hl; exact h.setFree c _ (createBlock_goodS (h.good.live hl) n false) (createBlock_autocommit s n false (h.autocommit hl (okC_busy hin hl))) (okC_busy hin hl) rfl rfl
   | getBlock c n =>
     simp only [step]; split
     · exact h.same rfl rfl
-    · rename_i s hl; exact h.setFree c _ (by rw [getBlock_fst]; exact h.good.live hl) (okC_busy hin hl) rfl rfl
+    · rename_i s hl; exact h.setFree c _ (by rw [getBlock_fst]; exact h.good.live hl) (by rw [getBlock_fst]; exact h.autocommit hl (okC_busy hin hl)) (okC_busy hin hl) rfl rfl
   | blocks c =>
     simp only [step]; split
     · exact h
-    · rename_i s hl; exact h.setFree c _ (h.good.live hl) (okC_busy hin hl) rfl rfl
+    · rename_i s hl; exact h.setFree c _ (h.good.live hl) (h.autocommit hl (okC_busy hin hl)) (okC_busy hin hl) rfl rfl
   | mkFrame hh n =>
     simp only [step]; split
     · exact h.same rfl rfl
-    · rename_i e s hl; exact h.setFree _ _ (createFrame_goodS (h.good.live (liveH_liveC hl)) e.h n false) (okH_busy hin hl) rfl rfl
+    · rename_i e s hl; exact h.setFree _ _ (createFrame_goodS (h.good.live (liveH_liveC hl)) e.h n false) (createFrame_autocommit s e.h n false (h.autocommit (liveH_liveC hl) (okH_busy hin hl))) (okH_busy hin hl) rfl rfl
   | getFrame hh n =>
     simp only [step]; split
     · exact h.same rfl rfl
-    · rename_i e s hl; exact h.setFree _ _ (by rw [getFrame_fst]; exact h.good.live (liveH_liveC hl)) (okH_busy hin hl) rfl rfl
+    · rename_i e s hl; exact h.setFree _ _ (by rw [getFrame_fst]; exact h.good.live (liveH_liveC hl)) (by rw [getFrame_fst]; exact (h.autocommit (liveH_liveC hl) (okH_busy hin hl))) (okH_busy hin hl) rfl rfl
   | frames hh =>
     simp only [step]; split
     · exact h
-    · rename_i e s hl; exact h.setFree _ _ (h.good.live (liveH_liveC hl)) (okH_busy hin hl) rfl rfl
+    · rename_i e s hl; exact h.setFree _ _ (h.good.live (liveH_liveC hl)) (h.autocommit (liveH_liveC hl) (okH_busy hin hl)) (okH_busy hin hl) rfl rfl
   | cdestroy hh =>
     simp only [step]; split
     · exact h
     · rename_i e s hl
       split
       · exact h
-      · exact h.setFree _ _ (destroyContainer_goodS (h.good.live (liveH_liveC hl)) e.h) (okH_busy hin hl) rfl rfl
+      · exact h.setFree _ _ (destroyContainer_goodS (h.good.live (liveH_liveC hl)) e.h) (destroyContainer_autocommit s e.h (h.autocommit (liveH_liveC hl) (okH_busy hin hl))) (okH_busy hin hl) rfl rfl
   | code hh => simp only [step]; split <;> exact h
   | isBlock hh => simp only [step]; split <;> exact h
   | mkLoop hh cat names =>
     simp only [step]; split
     · exact h.same rfl rfl
-    · rename_i e s hl; exact h.setFree _ _ (createLoop_goodS (h.good.live (liveH_liveC hl)) e.h cat names) (okH_busy hin hl) rfl rfl
+    · rename_i e s hl; exact h.setFree _ _ (createLoop_goodS (h.good.live (liveH_liveC hl)) e.h cat names) (createLoop_autocommit s e.h cat names (h.autocommit (liveH_liveC hl) (okH_busy hin hl))) (okH_busy hin hl) rfl rfl
   | catLoop hh cat =>
     simp only [step]; split
     · exact h.same rfl rfl
-    · rename_i e s hl; exact h.setFree _ _ (by rw [getCategoryLoop_fst]; exact h.good.live (liveH_liveC hl)) (okH_busy hin hl) rfl rfl
+    · rename_i e s hl; exact h.setFree _ _ (by rw [getCategoryLoop_fst]; exact h.good.live (liveH_liveC hl)) (by rw [getCategoryLoop_fst]; exact (h.autocommit (liveH_liveC hl) (okH_busy hin hl))) (okH_busy hin hl) rfl rfl
   | itemLoop hh n =>
     simp only [step]; split
     · exact h.same rfl rfl
-    · rename_i e s hl; exact h.setFree _ _ (by rw [getItemLoop_fst]; exact h.good.live (liveH_liveC hl)) (okH_busy hin hl) rfl rfl
+    · rename_i e s hl; exact h.setFree _ _ (by rw [getItemLoop_fst]; exact h.good.live (liveH_liveC hl)) (by rw [getItemLoop_fst]; exact (h.autocommit (liveH_liveC hl) (okH_busy hin hl))) (okH_busy hin hl) rfl rfl
   | loops hh =>
     simp only [step]; split
     · exact h
     · rename_i e s hl
       have hb := okH_busy hin hl
       have h1 := allLoops_goodS (h.good.live (liveH_liveC hl)) e.h
-      split
-      · rename_i s1 c1 he; rw [he] at h1; exact h.setFree _ _ h1 hb rfl rfl
-      · rename_i s1 ls he
-        rw [he] at h1
-        refine h.setFree _ _ ?_ hb rfl rfl
-        -- the caller's get_names on each returned handle
-        have : ∀ (ls : List LH) (acc : Store × List (Option Str × Option (List Str))), GoodS acc.1 →
-            GoodS (ls.foldl (fun (acc : Store × List (Option Str × Option (List Str))) l =>
+      have q1 := allLoops_autocommit s e.h (h.autocommit (liveH_liveC hl) (okH_busy hin hl))
+      -- the caller's get_names on each returned handle keeps both facts
+      have fold : ∀ (P : Store → Prop), (∀ s l, P s → P (getNames s l).1) →
+          ∀ (ls : List LH) (acc : Store × List (Option Str × Option (List Str))), P acc.1 →
+            P (ls.foldl (fun (acc : Store × List (Option Str × Option (List Str))) l =>
               match getNames acc.1 l with
               | (s', .ok ns) => (s', acc.2 ++ [(l.category, some (ns.map (·.2)))])
               | (s', .error _) => (s', acc.2 ++ [(l.category, none)])) acc).1 := by
-          intro ls
-          induction ls with
-          | nil => intro acc ha; exact ha
-          | cons l ls ih =>
-            intro acc ha
-            simp only [List.foldl_cons]
-            apply ih
-            have hn := getNames_goodS ha l
-            split
-            · rename_i he; rw [he] at hn; exact hn
-            · rename_i he; rw [he] at hn; exact hn
-        exact this ls (s1, []) h1
+        intro P hP ls
+        induction ls with
+        | nil => intro acc ha; exact ha
+        | cons l ls ih =>
+          intro acc ha
+          simp only [List.foldl_cons]
+          apply ih
+          have hn := hP acc.1 l ha
+          split
+          · rename_i he; rw [he] at hn; exact hn
+          · rename_i he; rw [he] at hn; exact hn
+      split
+      · rename_i s1 c1 he; rw [he] at h1 q1; exact h.setFree _ _ h1 q1 hb rfl rfl
+      · rename_i s1 ls he
+        rw [he] at h1 q1
+        exact h.setFree _ _ (fold GoodS (fun s l hs => getNames_goodS hs l) ls (s1, []) h1)
+          (fold (fun s => s.autocommit = true) (fun s l hs => getNames_autocommit s l hs) ls (s1, []) q1) hb rfl rfl
   | prune hh =>
     simp only [step]; split
     · exact h
-    · rename_i e s hl; exact h.setFree _ _ (prune_goodS (h.good.live (liveH_liveC hl)) e.h) (okH_busy hin hl) rfl rfl
+    · rename_i e s hl; exact h.setFree _ _ (prune_goodS (h.good.live (liveH_liveC hl)) e.h) (prune_autocommit s e.h (h.autocommit (liveH_liveC hl) (okH_busy hin hl))) (okH_busy hin hl) rfl rfl
   | getVal hh n =>
     simp only [step]; split
     · exact h
@@ -1025,39 +1029,39 @@ theorem C04_wok_step (w : World) (op : Op) (h : WOk w) (hin : inContract w op = 
       · rename_i nm
         have hf := getValue_fst s e.h (some nm)
         split
-        · rename_i s1 v amb he; rw [he] at hf; simp only [] at hf; subst hf; exact h.setFree _ _ (h.good.live (liveH_liveC hl)) hb rfl rfl
-        · rename_i s1 c1 he; rw [he] at hf; simp only [] at hf; subst hf; exact h.setFree _ _ (h.good.live (liveH_liveC hl)) hb rfl rfl
+        · rename_i s1 v amb he; rw [he] at hf; simp only [] at hf; subst hf; exact h.setFree _ _ (h.good.live (liveH_liveC hl)) (h.autocommit (liveH_liveC hl) hb) hb rfl rfl
+        · rename_i s1 c1 he; rw [he] at hf; simp only [] at hf; subst hf; exact h.setFree _ _ (h.good.live (liveH_liveC hl)) (h.autocommit (liveH_liveC hl) hb) hb rfl rfl
   | setVal hh n v =>
     simp only [step]; split
     · exact h
-    · rename_i e s hl; exact h.setFree _ _ (setValue_goodS (h.good.live (liveH_liveC hl)) e.h n v) (okH_busy hin hl) rfl rfl
+    · rename_i e s hl; exact h.setFree _ _ (setValue_goodS (h.good.live (liveH_liveC hl)) e.h n v) (setValue_autocommit s e.h n v (h.autocommit (liveH_liveC hl) (okH_busy hin hl))) (okH_busy hin hl) rfl rfl
   | rmItem hh n =>
     simp only [step]; split
     · exact h
-    · rename_i e s hl; exact h.setFree _ _ (removeItem_goodS (h.good.live (liveH_liveC hl)) e.h n) (okH_busy hin hl) rfl rfl
+    · rename_i e s hl; exact h.setFree _ _ (removeItem_goodS (h.good.live (liveH_liveC hl)) e.h n) (removeItem_autocommit s e.h n (h.autocommit (liveH_liveC hl) (okH_busy hin hl))) (okH_busy hin hl) rfl rfl
   | ldestroy l =>
     simp only [step]; split
     · exact h
     · rename_i e s hl
       split
       · exact h
-      · exact h.setFree _ _ (destroyLoop_goodS (h.good.live (liveL_liveC hl)) e.h) (okL_busy hin hl).1 rfl rfl
+      · exact h.setFree _ _ (destroyLoop_goodS (h.good.live (liveL_liveC hl)) e.h) (destroyLoop_autocommit s e.h (h.autocommit (liveL_liveC hl) (okL_busy hin hl).1)) (okL_busy hin hl).1 rfl rfl
   | getCat l => simp only [step]; split <;> exact h
   | setCat l cat =>
     simp only [step]; split
     · exact h
-    · rename_i e s hl; exact h.setFree _ _ (setCategory_goodS (h.good.live (liveL_liveC hl)) e.h cat) (okL_busy hin hl).1 rfl rfl
+    · rename_i e s hl; exact h.setFree _ _ (setCategory_goodS (h.good.live (liveL_liveC hl)) e.h cat) (setCategory_autocommit s e.h cat (h.autocommit (liveL_liveC hl) (okL_busy hin hl).1)) (okL_busy hin hl).1 rfl rfl
   | names l =>
     simp only [step]; split
     · exact h
-    · rename_i e s hl; exact h.setFree _ _ (getNames_goodS (h.good.live (liveL_liveC hl)) e.h) (okL_busy hin hl).1 rfl rfl
+    · rename_i e s hl; exact h.setFree _ _ (getNames_goodS (h.good.live (liveL_liveC hl)) e.h) (getNames_autocommit s e.h (h.autocommit (liveL_liveC hl) (okL_busy hin hl).1)) (okL_busy hin hl).1 rfl rfl
   | addItem l n v =>
     simp only [step]; split
     · exact h
     · rename_i e s hl
       split
       · exact h
-      · exact h.setFree _ _ (addItem_goodS (h.good.live (liveL_liveC hl)) e.h _ v) (okL_busy hin hl).1 rfl rfl
+      · exact h.setFree _ _ (addItem_goodS (h.good.live (liveL_liveC hl)) e.h _ v) (addItem_autocommit s e.h _ v (h.autocommit (liveL_liveC hl) (okL_busy hin hl).1)) (okL_busy hin hl).1 rfl rfl
   | addPkt l p =>
     simp only [step]; split
     · exact h
@@ -1065,7 +1069,7 @@ theorem C04_wok_step (w : World) (op : Op) (h : WOk w) (hin : inContract w op = 
       have hin' : okL w l = true := by
         have : (okL w l && keysDistinct p) = true := hin
         simp only [Bool.and_eq_true] at this; exact this.1
-      exact h.setFree _ _ (addPacket_goodS (h.good.live (liveL_liveC hl)) e.h p) (okL_busy hin' hl).1 rfl rfl
+      exact h.setFree _ _ (addPacket_goodS (h.good.live (liveL_liveC hl)) e.h p) (addPacket_autocommit s e.h p (h.autocommit (liveL_liveC hl) (okL_busy hin' hl).1)) (okL_busy hin' hl).1 rfl rfl
   | itOpen l =>
     simp only [step]; split
     · exact h.itNone rfl rfl
@@ -1085,11 +1089,11 @@ theorem C04_wok_step (w : World) (op : Op) (h : WOk w) (hin : inContract w op = 
   | itClose i =>
     simp only [step]; split
     · exact h
-    · rename_i e s hl; exact h.itEnd i e s _ hl (closeIter_goodS (h.good.live (liveI_liveC hl))) rfl rfl
+    · rename_i e s hl; exact h.itEnd i e s _ hl (closeIter_goodS (h.good.live (liveI_liveC hl))) (closeIter_autocommit s) rfl rfl
   | itAbort i =>
     simp only [step]; split
     · exact h
-    · rename_i e s hl; exact h.itEnd i e s _ hl (abortIter_goodS (h.good.live (liveI_liveC hl))) rfl rfl
+    · rename_i e s hl; exact h.itEnd i e s _ hl (abortIter_goodS (h.good.live (liveI_liveC hl))) (abortIter_autocommit s) rfl rfl
 
 /-- a fresh history satisfies WOk -/
 theorem C04_wok_init : WOk {} := WOk.empty
@@ -1119,6 +1123,10 @@ theorem C04_rows_below (w : World) (h : WOk w) (c : Nat) (s : Store) (hs : w.cif
     needs to keep PacketsTotal) with the item names of that loop and a `scalar` flag true to the stored category -/
 theorem C04_iterator_tied (w : World) (h : WOk w) (i : Nat) (e : ITE) (s : Store) (hl : w.liveI i = some (e, s)) :
     IterOk e.it s.db := h.iters.of_liveI hl
+
+/-- … and a CIF on which no iterator is open is in autocommit mode: the library leaves no transaction open -/
+theorem C04_quiet (w : World) (h : WOk w) (c : Nat) (s : Store) (hs : w.liveC c = some s) (hb : w.cifBusy c = false) :
+    s.autocommit = true := h.autocommit hs hb
 
 -- ---- the loop-level theorems with their hypotheses discharged by WOk and the contract ------------------------------------------------
 
@@ -1165,6 +1173,34 @@ theorem C04_remove_item_in_wok (w : World) (h : WOk w) (c : Nat) (s : Store) (hs
     (∀ y ∈ s.db.loops, ¬(y.cid = x.cid ∧ y.loopNum = x.loopNum) → absLoop d' y = absLoop s.db y) ∧
     d'.loops = s.db.loops ∧ d'.frames = s.db.frames ∧ d'.blocks = s.db.blocks :=
   removeItem_good s.db (h.good c s hs).db x i j0 hx hi hj0 hne0
+
+-- ---- one refinement theorem over histories (for the ops `specStep` covers so far) ---------------------------------------------------
+
+/-- C04_refines: in a world satisfying WOk, an op that keeps to the documented contract does to the documented model with object
+    identities (`absW`, Spec/StoreSpec: every managed CIF as container tree + loops of (category, items, packets)) exactly what
+    `specStep` says, and returns the same result — with no further hypothesis.  Covered so far (`Op.covered`, 21 of the 31 ops): cif_create, cif_destroy,
+    create_block, get_block, get_all_blocks, create_frame, get_frame, get_all_frames, get_code, is-block, container_destroy, prune,
+    create_loop, get_category_loop, get_item_loop, loop_get_category, loop_set_category, loop_get_names, loop_add_item,
+    loop_add_packet, loop_destroy.  Not yet: get_all_loops, get_value, set_value, remove_item (each has its container-local
+    refinement theorem above) and the six iterator calls (C06). -/
+theorem C04_refines (w : World) (op : Op) (h : WOk w) (hin : inContract w op = true) (hc : op.covered = true) :
+    specStep (absW w) op = some (absW (step w op).1, (step w op).2) :=
+  specStep_refines w op h hin hc
+
+/-- … and over whole histories: a history of covered ops that keeps to the contract, started in a world satisfying WOk (the empty
+    world does: `C04_wok_init`), runs on the documented model exactly as on the store model — same final state under `absW`, same
+    result of every call -/
+theorem C04_refines_hist : ∀ (ops : List Op) (w : World), WOk w → inContractHist w ops = true → ops.all Op.covered = true →
+    specRun (absW w) ops = some (absW (run w ops).1, (run w ops).2)
+  | [], _, _, _, _ => rfl
+  | op :: ops, w, h, hc, hcov => by
+    have hc' : (inContract w op && inContractHist (step w op).1 ops) = true := hc
+    simp only [Bool.and_eq_true] at hc'
+    simp only [List.all_cons, Bool.and_eq_true] at hcov
+    unfold specRun run
+    rw [C04_refines w op h hc'.1 hcov.1]
+    simp only []
+    rw [C04_refines_hist ops (step w op).1 (C04_wok_step w op h hc'.1) hc'.2 hcov.2]
 
 -- ---- failure-code agreement with Spec/DataModel (loop level) ---------------------------------------------------------------------
 
